@@ -27,7 +27,8 @@ RULE = ("hist: generated programs (see module doc) on real InteractiveContexts; 
         "(the F-D and F-L witnesses, repeated labels, unnamed series, untracked rows through filtering views, each "
         "structural fault, sub-views).  distinct = distinct program; trivial = program in which no update was attempted")
 ASSUMPTIONS = [
-    "cells are bool, int64 with |z| <= 2^53, float64 multiples of 0.5 (or NaN), strings from a fixed pool, whole-day "
+    "cells are bool, int64 (mostly small; the boundary +-2^53; beyond it at low density: finding F-Z), float64 multiples "
+    "of 0.5 (or NaN), strings from a fixed pool, whole-day "
     "datetime64[us] (or NaT); updates have an int64 index; categoricals, None inside object columns and other extension "
     "dtypes are outside the model (kept out of the generator)",
     "the iteration order of the Python sets of column names is an arbitrary list in the model (theorems quantify over "
@@ -63,18 +64,18 @@ CLAIM = {
             "running generated histories on real InteractiveContexts with probe components and letting Coq compare the "
             "full state table cell by cell (labels, dtypes, values) after every operation; a python oracle evaluates the "
             "property directly and checks that frames returned by earlier reads never change.",
-    "note": "Sampled correspondence (not exhaustive); copy/aliasing semantics tested, not proved; int64 beyond 2^53, "
-            "categoricals and None-in-object cells outside the model; F-L (open known finding) reproduced and reported as "
-            "KNOWN-FINDING; a new corner (int64 > 2^53 rounded by births) is reported separately and kept out of the "
-            "generator.",
+    "note": "Sampled correspondence (not exhaustive); copy/aliasing semantics tested, not proved; categoricals and "
+            "None-in-object cells outside the model; while simulants are added, casts that stringify cells or turn numbers "
+            "into epoch offsets are Unmodelled (kept out of the generator); the open known findings F-L (whole-column cast "
+            "at birth) and F-Z (births round int64 beyond 2^53) are reproduced on every run and reported as KNOWN-FINDING; "
+            "the model follows the implementation on both.",
 }
 LEVEL_NOTE = ""
 
 
 def _corpus():
     c = popdrv.corpus_updates() + popdrv.corpus_creations()
-    if os.environ.get("VERIF_POP_BIGINT") or is_open_finding(PROPERTY, "F-S"):
-        c += popdrv.corpus_bigint()
+    c += popdrv.corpus_bigint()             # finding F-Z (open)
     return c
 
 
